@@ -109,9 +109,18 @@ func (d *Def) BaseType() string {
 	return d.Base
 }
 
+// Const is a constant definition; Literal is the source text of its value.
+type Const struct {
+	Type    string `json:"type"`
+	Name    string `json:"name"`
+	Literal string `json:"literal"`
+	After   int    `json:"after"` // printed after this many definitions (0 = first)
+}
+
 type Schema struct {
-	Name string `json:"name"`
-	Defs []*Def `json:"defs"`
+	Name   string  `json:"name"`
+	Defs   []*Def  `json:"defs"`
+	Consts []Const `json:"consts,omitempty"`
 	// Combined selects the generator's combined import mode for programs that import a
 	// library file (separate mode otherwise).
 	Combined bool `json:"combined,omitempty"`
@@ -207,6 +216,8 @@ type Layout struct {
 	Comments  bool
 	Block     bool // doc comments as /* block */ comments instead of // lines
 	BlankRuns int
+	Trailing  int  // 1: "// c" after closing curlies and const semicolons; 2: "/* c */" there
+	SameLine  bool // some definitions follow the previous one on the same line
 }
 
 // flagExpr writes v as a [flags] expression in one of several forms with the same value.
@@ -247,11 +258,40 @@ func (s *Schema) Print() string { return s.PrintLayout(Layout{Indent: "    ", Co
 
 func (s *Schema) PrintLayout(l Layout) string {
 	var b strings.Builder
-	for i, d := range s.Defs {
-		if i > 0 {
+	trail := func() {
+		switch l.Trailing {
+		case 1:
+			b.WriteString(" // trailing remark")
+		case 2:
+			b.WriteString(" /* trailing remark */")
+		}
+	}
+	consts := func(after int) {
+		for _, c := range s.Consts {
+			if c.After != after {
+				continue
+			}
+			fmt.Fprintf(&b, "const %s %s = %s;", c.Type, c.Name, c.Literal)
+			trail()
 			b.WriteString("\n")
 		}
-		printDef(&b, d, l, "")
+	}
+	consts(0)
+	for i, d := range s.Defs {
+		if i > 0 && !(l.SameLine && i%3 == 2 && d.OpCode == 0 && !(d.Kind == KEnum && d.Flags) && d.Comment == "") {
+			b.WriteString("\n")
+		}
+		var one strings.Builder
+		printDef(&one, d, l, "")
+		txt := strings.TrimRight(one.String(), "\n")
+		b.WriteString(txt)
+		trail()
+		if l.SameLine && i%3 == 1 && i+1 < len(s.Defs) {
+			b.WriteString(" ")
+		} else {
+			b.WriteString("\n")
+		}
+		consts(i + 1)
 	}
 	out := b.String()
 	if l.CRLF {
@@ -481,7 +521,7 @@ func (s *Schema) hasZeroSizeElem(t Type, seen map[string]bool) bool {
 
 // Clone deep-copies a schema.
 func (s *Schema) Clone() *Schema {
-	c := &Schema{Name: s.Name}
+	c := &Schema{Name: s.Name, Combined: s.Combined, Consts: append([]Const(nil), s.Consts...)}
 	for _, d := range s.Defs {
 		c.Defs = append(c.Defs, cloneDef(d))
 	}
